@@ -7,7 +7,7 @@ From OV.base Require Import Num.
 From OV.gen Require Import Gen_ScalarRootFind Gen_Hardening Gen_TensorMath Gen_J2Flow Gen_J2Elastic Gen_J2Finite.
 From OV.gen Require Import Gen_HyperViscoelastic Gen_MultiBranchHyperViscoelastic Gen_ViscoState.
 From OV.model Require Import M_C17 M_C09 M_C09T M_C08 M_C11 M_C11s M_C09F.
-From OV.proofs Require Import L_C17 L_C09 L_C09r L_C09T L_C08 L_C11a L_C11 L_C11s L_C11t L_C11e L_C11u L_C09F L_C09G L_C09N L_C09L.
+From OV.proofs Require Import L_C17 L_C09 L_C09r L_C09T L_C08 L_C11a L_C11 L_C11s L_C11t L_C11e L_C11u L_C09F L_C09G L_C09N L_C09L L_C09V.
 Import ListNotations.
 Local Open Scope R_scope.
 
@@ -302,28 +302,33 @@ Theorem C09_linear_hardening_never_nan : forall Y0 H mu s eo dt, 0 < mu -> 0 <= 
   exists d, @delta_eqps R NumR (Linear Y0 H) NoRate mu s eo dt = Some d.
 Proof. exact linear_hardening_never_nan. Qed.
 
-(* NOT PROVED: (a) "the update never returns NaN" -- false of the faithful model: the C17 root finder can hit its iteration cap
-   (C17_cap_refuted, finding F7; inside the J2 update: F13); every theorem above is conditional on `= Some d`.  Flat hardening
-   (perfect plasticity, saturated Voce) is NOT excluded: there the residual at the upper bracket end is within the tolerance and
-   the repaired root finder returns that end (C17_result_contract, end-point rule; finding F12 fixed by 8aadfbe).
+(* NOT PROVED: (a) "the update never returns NaN" -- false of the faithful model in general: the C17 root finder can hit its iteration cap
+   (C17_cap_refuted, finding F7; inside the J2 update: F13, rate sensitive).  Round 4: for every flow stress that does not drop over the bracket
+   (all rate-independent laws with admissible constants) the iteration cap is the ONLY NaN exit (C09_nan_only_by_iteration_cap[_laws],
+   C09_update_defined_unless_cap: "not bracketed", 0/0 and fuel are excluded by the C17 result contract); flat hardening returns the
+   elastic-predictor bound (C09_flat_hardening_defined; finding F12 fixed by 8aadfbe); LINEAR hardening NEVER returns NaN
+   (C09_linear_hardening_never_nan, one Newton step of the regenerated loop body).  Still open: that 50 iterations suffice for Voce / power-law
+   hardening and for rate sensitivity (for the latter it is false in binary64: F13) -- every theorem about those laws stays conditional on `= Some d`.
    (b) CLOSED (round 3): the rate-sensitivity potential's derivative / one-sided derivative at eqps_old / monotonicity are
    C09_rate_flow, C09_rate_flow_at_old, C09_rate_monotone; the rate-sensitive update and minimality are
    C09_update_rate_sensitive_laws, C09_variational_rate_sensitive_laws.  Tied by correspondence only: jax.grad of the regenerated
-   energy IS the written-out h_flow + k_flow (stream `flow_stress`).
-   (c) scalar <-> tensor history: CLOSED for the two kinematics with an additive state update: 'small deformations'
-   (C09_tensor_residual_is_scalar_residual, C09_small_history_invariants; tensor model tied by the stream `tensor_small`) and
-   'seth hill' (C09_seth_hill_*: same update path, regenerated strain kernel with pow_symm arbitrary; not executed at binary64).
-   Still NOT proved for 'large deformations' (multiplicative update Fp' = exp_symm(d N) Fp): needs log_sqrt_symm / exp_symm (opaque
-   parameters of the regenerated strain kernel) with the functional-calculus laws exp(A) exp(B) = exp(A + B) for commuting symmetric
-   A, B, inv(exp A) = exp(-A), log_sqrt_symm(exp(2 B)) = B; with these Fe' = Fe exp(-d N), Ce' = exp(-d N) Ce exp(-d N)
-   = exp(2 (Ee_trial - d N)) because N is a multiple of dev(Ee_trial), hence Ee' = Ee_trial - d N and the additive-case theorems carry
-   over.  Not done (those laws are what C10/C12 check for the code's eigen-decomposition route).
-   C09_isochoric assumes Jacobi's formula for exp_symm; finite-deformation histories are tied by L2 on the code.
-   (d) energy before/after committing: CLOSED for 'small deformations' and 'seth hill' (C09_small_commit_invariance,
-   C09_seth_hill_commit_invariance, clause (iv)); open for 'large deformations' (see (c)); the STRESS clause is proved
-   only in the form "same elastic strain, hence same elastic stress 2 mu dev(Ee) + kappa tr(Ee) I" ((i) and (iii)); that jax.grad of the
-   energy w.r.t. the displacement gradient BEFORE committing equals that tensor (envelope argument: d(potential)/d(eqps) = 0 at the root,
-   N:dN = 0) is not proved -- tested by L2 (commit_invariance, dP). *)
+   energy IS the written-out h_flow + k_flow (stream `flow_stress`; stream `factory_history`: the hardening object the FACTORY hands out is the
+   one the property set asks for, for several models created in one process).
+   (c) scalar <-> tensor history: CLOSED for all three kinematics.  'small deformations' (C09_tensor_residual_is_scalar_residual,
+   C09_small_history_invariants; stream `tensor_small`), 'seth hill' (C09_seth_hill_*: regenerated strain kernel, pow_symm arbitrary; not executed
+   at binary64), and -- round 4 -- 'large deformations' (C09_finite_*: regenerated logarithmic strain + regenerated multiplicative tail
+   exp_symm(dEp) @ FpOld; isochoric along ANY history with det(exp_symm A) = exp(tr A) PROVED for the spectral exponential from the eigen-solver
+   contract, and unconditionally with the solver of L_C11e.v; stream `tensor_finite` with the code's own log_sqrt_symm / exp_symm values as oracles).
+   The old C09_isochoric (Jacobi's formula as a premise) is kept; it is subsumed by C09_finite_history_isochoric.
+   What is NOT modelled for 'large deformations': the eigen-solver eigen_sym33_unit itself (C12's subject) -- the theorems hold for every solver
+   meeting the eigh contract on symmetric matrices; at (nearly) coinciding eigenvalues the real solver meets it only to rounding (C12 findings).
+   (d) energy before/after committing: CLOSED for all three kinematics (C09_small_commit_invariance, C09_seth_hill_commit_invariance,
+   C09_finite_commit_invariance[_unconditional], clause (iv)); guards for 'large deformations': F and Fp invertible, both trial deviators above
+   the flow-direction threshold.  The STRESS clause is proved only in the form "same elastic strain, hence same elastic stress
+   2 mu dev(Ee) + kappa tr(Ee) I" ((i) and (iii)); that jax.grad of the energy w.r.t. the displacement gradient BEFORE committing equals that
+   tensor (envelope argument: d(potential)/d(eqps) = 0 at the root, N:dN = 0) is not proved -- tested by L2 (commit_invariance, dP).
+   (e) the dummy flow direction (vanishing deviator, below 1e-16): isochoric / irreversible hold there too (C09_flow_direction both branches);
+   commit invariance is not claimed there (the dummy direction is not coaxial with the trial strain). *)
 
 Example C09_nonvacuous :
   (forall x y : R, x <= y -> @h_flow R NumR (Linear 1 2) x <= @h_flow R NumR (Linear 1 2) y) /\
@@ -343,6 +348,13 @@ Example C09_tensor_residual_nonvacuous : forall (mu eo : R) (E : @m9 R),
   exists DelT D2T : R -> R, (forall e, is_derive (fun x => @elastic_along R NumR mu E eo x) e (DelT e)) /\ (forall e, is_derive DelT e (D2T e)).
 Proof. exact tensor_residual_nonvacuous. Qed.
 
+Example C09_finite_nonvacuous :
+  let lss := @fin_lss R NumR eigh_sym in let expm := @fin_expm R NumR eigh_sym in
+  det9 (add9 Hs id9) <> 0 /\ det9 (snd (@virgin_fin R NumR)) <> 0 /\ nondegenerate (strain_log lss Hs virgin_fin) /\
+  law_admissible (Linear 10 2) 0 /\ 0 < law_Y0 (Linear 10 2) /\
+  exists st', @state_new_fin R NumR lss expm (Linear 10 2) NoRate 1 1 Hs virgin_fin = Some st' /\ nondegenerate (strain_log lss Hs st').
+Proof. exact nonvacuous_C09_finite. Qed.
+
 Print Assumptions C09_flow_direction.
 Print Assumptions C09_irreversible.
 Print Assumptions C09_yield_consistent.
@@ -353,7 +365,5 @@ Print Assumptions C09_update_rate_sensitive_laws.
 Print Assumptions C09_variational_rate_sensitive_laws.
 Print Assumptions C09_small_history_invariants.
 Print Assumptions C09_small_commit_invariance.
-Print Assumptions C09_finite_history_isochoric_unconditional.
 Print Assumptions C09_finite_commit_invariance_unconditional.
-Print Assumptions C09_nan_only_by_iteration_cap.
 Print Assumptions C09_linear_hardening_never_nan.
